@@ -113,3 +113,13 @@ Theorem C17_reader_knows_the_wire_names :
   map evkind_str [EvDownload; EvInstallFailure; EvInstallSuccess] = map snd gen_event_type_names.
 Proof. split; reflexivity. Qed.
 Print Assumptions C17_reader_knows_the_wire_names.
+
+(* the text the library writes for a release and a queue (JsonWrite.w_fstate) is read back as that release and that
+   queue: a queued event survives the restart as written *)
+From UV Require Import JsonTextExist JsonSjExist JsonWrite JsonWriteProofs.
+Theorem C17_written_queue_is_read_back :
+  forall r q,
+    utf8_valid (bytes_of r) = true -> Forall fevent_in_range q -> Forall fevent_utf8 q ->
+    sj_of_file (w_fstate r q) = JOk {| rel := r; evq := map event_of_fevent q |}.
+Proof. exact written_sstate_is_read_back. Qed.
+Print Assumptions C17_written_queue_is_read_back.
